@@ -214,7 +214,8 @@ def provenance(ck, prog, r):
     done = set()
     # (function name, index of the message parameter, callee stamps itself?)
     work = [('bus_transaction_send', 3), ('bus_dispatch_matches', 3), ('bus_transaction_capture', 3),
-            ('bus_transaction_send_from_driver', 2), ('send_one_message', 4)]
+            ('bus_transaction_send_from_driver', 2),
+            ('send_one_message', lib.param_index_of_type(prog.fn('send_one_message', 'bus/dispatch.c'), 'DBusMessage', 4))]
     stamped_by_callee = {'bus_transaction_send_from_driver'}
     field_obl = set()
 
